@@ -6,6 +6,7 @@ import (
 	"io"
 	"math/big"
 	"sort"
+	"sync"
 	"testing"
 
 	"pgregory.net/rapid"
@@ -15,11 +16,13 @@ import (
 	"github.com/bronlabs/bron-crypto/pkg/base/curves/k256"
 	"github.com/bronlabs/bron-crypto/pkg/base/curves/pairable/bls12381"
 	"github.com/bronlabs/bron-crypto/pkg/base/curves/pasta"
+	"github.com/bronlabs/bron-crypto/pkg/base/nt"
 	"github.com/bronlabs/bron-crypto/pkg/base/nt/num"
 	"github.com/bronlabs/bron-crypto/pkg/base/nt/znstar"
 	"github.com/bronlabs/bron-crypto/pkg/base/serde"
 	"github.com/bronlabs/bron-crypto/pkg/commitments"
 	"github.com/bronlabs/bron-crypto/pkg/commitments/hashcom"
+	"github.com/bronlabs/bron-crypto/pkg/commitments/intcom"
 	"github.com/bronlabs/bron-crypto/pkg/commitments/pedersencom"
 	"github.com/bronlabs/bron-crypto/pkg/encryption"
 	"github.com/bronlabs/bron-crypto/pkg/encryption/elgamal"
@@ -30,6 +33,7 @@ import (
 	"github.com/bronlabs/bron-crypto/pkg/mpc/sharing/vss/pedersen"
 	"github.com/bronlabs/bron-crypto/pkg/mpc/signatures/bls/boldyreva02/keygen"
 	"github.com/bronlabs/bron-crypto/pkg/mpc/signatures/bls/boldyreva02/signing"
+	"github.com/bronlabs/bron-crypto/pkg/mpc/signatures/ecdsa/lindell17"
 	"github.com/bronlabs/bron-crypto/pkg/signatures/bls"
 	"verif/harness/vlib"
 	"verif/harness/vlib/lx"
@@ -46,6 +50,13 @@ type sampler struct {
 	name   string
 	family string
 	sample func(prng io.Reader) (random, public map[string][]byte, err error)
+	// concurrent: the operation is documented to read the reader from several goroutines: equal
+	// streams need not give equal results and the byte count is not replayable (only P1, P3, P6 and
+	// "a reader that always fails => error" are asserted).
+	concurrent bool
+	// known: the sampling site is exactly a catalogued finding; it is skipped (vlib.Excluded) while
+	// the finding is present and checked like every other sampler once it is repaired.
+	known string
 }
 
 // ---- dealing ----------------------------------------------------------------------------------------
@@ -325,6 +336,99 @@ func otherSamplers() []*sampler {
 	return out
 }
 
+// keygenSamplers: integer-factorisation key generation. The sites behind nt.GeneratePrime /
+// nt.GeneratePrimePair are the catalogued finding C07-prime-generation-ignores-reader (see
+// primes_test.go); the Blum / safe-prime generators are the unaffected controls.
+func keygenSamplers() []*sampler {
+	paillierPK := func(sk *paillier.SecretKey, err error) (map[string][]byte, map[string][]byte, error) {
+		if err != nil {
+			return nil, nil, err
+		}
+		b, err := sk.Public().MarshalCBOR()
+		if err != nil {
+			return nil, nil, err
+		}
+		return map[string][]byte{"modulus": b}, nil, nil
+	}
+	p23, raw := thr23()
+	ac := mustAC(p23, raw)
+	es := proto.ECDSASigners()[0]
+	type l17 = *lindell17.Shard[*k256.Point, *k256.BaseFieldElement, *k256.Scalar]
+	return []*sampler{
+		{name: "keygen/nt.GeneratePrime(256)", family: "keygen-prime", known: knownPrimeGeneration, sample: func(prng io.Reader) (map[string][]byte, map[string][]byte, error) {
+			p, err := nt.GeneratePrime(num.NPlus(), 256, prng)
+			if err != nil {
+				return nil, nil, err
+			}
+			return map[string][]byte{"prime": p.Big().Bytes()}, nil, nil
+		}},
+		{name: "keygen/paillier.SampleSecretKey(1024)", family: "keygen-paillier", known: knownPrimeGeneration, sample: func(prng io.Reader) (map[string][]byte, map[string][]byte, error) {
+			return paillierPK(paillier.SampleSecretKey(1024, prng))
+		}},
+		{name: "keygen/znstar.SampleRSAGroup(1024)", family: "keygen-rsa", known: knownPrimeGeneration, sample: func(prng io.Reader) (map[string][]byte, map[string][]byte, error) {
+			g, err := znstar.SampleRSAGroup(1024, prng)
+			if err != nil {
+				return nil, nil, err
+			}
+			return map[string][]byte{"modulus": g.Modulus().Big().Bytes()}, nil, nil
+		}},
+		{name: "keygen/lindell17-trusted-dealer(1024)/paillier-keys", family: "keygen-lindell17-dealer", known: knownPrimeGeneration, sample: func(prng io.Reader) (map[string][]byte, map[string][]byte, error) {
+			shards, _, err := es.Lindell17Deal(ac, 1024, prng)
+			if err != nil {
+				return nil, nil, err
+			}
+			random := map[string][]byte{}
+			for id, v := range shards {
+				sh, ok := v.(l17)
+				if !ok {
+					return nil, nil, fmt.Errorf("unexpected shard type %T", v)
+				}
+				b, err := sh.PaillierSecretKey().Public().MarshalCBOR()
+				if err != nil {
+					return nil, nil, err
+				}
+				random[fmt.Sprintf("paillier-key/%d", id)] = b
+			}
+			return random, nil, nil
+		}},
+		// controls (read the reader themselves, from two goroutines / GOMAXPROCS workers)
+		{name: "keygen/paillier.SampleBlumSecretKey(512)", family: "keygen-paillier-blum", concurrent: true, sample: func(prng io.Reader) (map[string][]byte, map[string][]byte, error) {
+			return paillierPK(paillier.SampleBlumSecretKey(512, prng))
+		}},
+		{name: "keygen/paillier.SampleSafeSecretKey(256)", family: "keygen-paillier-safe", concurrent: true, sample: func(prng io.Reader) (map[string][]byte, map[string][]byte, error) {
+			return paillierPK(paillier.SampleSafeSecretKey(256, prng))
+		}},
+		{name: "keygen/intcom.SampleTrapdoorKey(256)", family: "keygen-ring-pedersen", concurrent: true, sample: func(prng io.Reader) (map[string][]byte, map[string][]byte, error) {
+			k, err := intcom.SampleTrapdoorKey(256, prng)
+			if err != nil {
+				return nil, nil, err
+			}
+			b, err := k.CommitmentKey.MarshalCBOR()
+			if err != nil {
+				return nil, nil, err
+			}
+			return map[string][]byte{"ring-pedersen-key": b}, nil, nil
+		}},
+	}
+}
+
+var (
+	findingOnce    sync.Once
+	findingPresent bool
+)
+
+// primeFindingPresent: does nt.GeneratePrime succeed on a reader that always fails, without
+// reading it? (once per process; a 64-bit prime costs microseconds)
+func primeFindingPresent() bool {
+	findingOnce.Do(func() {
+		r := vlib.NewPRNG(1, "c07-finding-probe")
+		r.StarveAfter(0)
+		_, err := nt.GeneratePrime(num.NPlus(), 64, r)
+		findingPresent = err == nil && r.Consumed() == 0
+	})
+	return findingPresent
+}
+
 var samplerList []*sampler
 
 func allSamplers() []*sampler {
@@ -335,6 +439,7 @@ func allSamplers() []*sampler {
 		samplerList = append(samplerList, elgamalSamplers("k256", k256.NewCurve())...)
 		samplerList = append(samplerList, elgamalSamplers("pallas", pasta.NewPallasCurve())...)
 		samplerList = append(samplerList, otherSamplers()...)
+		samplerList = append(samplerList, keygenSamplers()...)
 	}
 	return samplerList
 }
@@ -359,6 +464,13 @@ func checkSampler(t vlib.Fataler, test string, s *sampler, s1, s2 uint64, mode s
 	t.Helper()
 	if s1 == s2 {
 		s2++
+	}
+	if s.known != "" && primeFindingPresent() {
+		vlib.Excluded(s.known)
+		return []string{"family=" + s.family, "excluded=" + s.known}
+	}
+	if s.concurrent {
+		mode = "zero"
 	}
 	run := func(seed uint64, budget int64) (map[string][]byte, map[string][]byte, uint64, error) {
 		prng := vlib.NewPRNG(seed, "c07-sampler/"+s.name)
@@ -385,11 +497,11 @@ func checkSampler(t vlib.Fataler, test string, s *sampler, s1, s2 uint64, mode s
 	if n1 == 0 || n2 == 0 {
 		t.Fatalf("P6 %s: completed without reading a byte from the supplied random source", s.name)
 	}
-	if n1 != n1b {
+	if n1 != n1b && !s.concurrent {
 		t.Fatalf("P5 %s: two runs on the same stream (seed %#x) read %d resp. %d bytes", s.name, s1, n1, n1b)
 	}
 	for _, k := range sortedKeys(r1) {
-		if !bytes.Equal(r1[k], r1b[k]) {
+		if !bytes.Equal(r1[k], r1b[k]) && !s.concurrent {
 			t.Fatalf("P5 %s: %s differs between two runs on the SAME stream (seed %#x): %s vs %s - it does not (only) come from the supplied reader", s.name, k, s1, vlib.Hex(r1[k]), vlib.Hex(r1b[k]))
 		}
 		v2, ok := r2[k]
@@ -401,7 +513,7 @@ func checkSampler(t vlib.Fataler, test string, s *sampler, s1, s2 uint64, mode s
 		}
 	}
 	for _, k := range sortedKeys(p1) {
-		if !bytes.Equal(p1[k], p1b[k]) {
+		if !bytes.Equal(p1[k], p1b[k]) && !s.concurrent {
 			t.Fatalf("P5 %s: %s differs between two runs on the same stream", s.name, k)
 		}
 	}
@@ -449,10 +561,10 @@ func TestSamplers(t *testing.T) {
 	const test = "Samplers"
 	list := allSamplers()
 	vlib.Check(t, 1200, func(t *rapid.T) {
-		s := list[rapid.IntRange(0, len(list)-1).Draw(t, "sampler")]
+		s := list[pick(t, "sampler", len(list))]
 		s1 := rapid.Uint64().Draw(t, "seed1")
 		s2 := rapid.Uint64().Draw(t, "seed2")
-		mode := rapid.SampledFrom(starveModes).Draw(t, "mode")
+		mode := starveModes[pick(t, "mode", len(starveModes))]
 		frac := rapid.Float64Range(0, 0.999).Draw(t, "fraction")
 		classes := checkSampler(t, test, s, s1, s2, mode, frac)
 		vlib.Case(test, vlib.Desc(s.name, mode), true, classes...)
